@@ -42,6 +42,15 @@ func ethTx(chainID uint64, label string, nonce uint64, to *common.Address, value
 	return etx, nil
 }
 
+// evmStorageInit: init code of a contract whose constructor does sstore(0, 5) and whose runtime code is
+// sstore(0, calldataload(0)); stop.
+var evmStorageInit = []byte{
+	0x60, 0x05, 0x60, 0x00, 0x55, // PUSH1 5 PUSH1 0 SSTORE
+	0x60, 0x07, 0x60, 0x11, 0x60, 0x00, 0x39, // PUSH1 7 PUSH1 0x11 PUSH1 0 CODECOPY
+	0x60, 0x07, 0x60, 0x00, 0xf3, // PUSH1 7 PUSH1 0 RETURN
+	0x60, 0x00, 0x35, 0x60, 0x00, 0x55, 0x00, // runtime: PUSH1 0 CALLDATALOAD PUSH1 0 SSTORE STOP
+}
+
 // applyEth issues one Ethereum-format transaction: N selects the shape.
 func (s *scn) applyEth(st CStep) {
 	labels := []string{"user0", "user1", "user2", "poor0", "eth-unfunded"}
@@ -52,8 +61,26 @@ func (s *scn) applyEth(st CStep) {
 	nonce := s.b.nonces[k.Addr.String()]
 	value, gas, price := big.NewInt(1000), uint64(21000), big.NewInt(1)
 	var data []byte
-	shape := []string{"transfer", "transfer", "no-value", "wrong-nonce", "low-gas", "huge-gas", "value-over-balance", "create-junk", "call-contract-junk", "zero-price", "huge-price"}[st.N%11]
+	shape := []string{"transfer", "transfer", "no-value", "wrong-nonce", "low-gas", "huge-gas", "value-over-balance", "create-junk", "call-contract-junk", "zero-price", "huge-price",
+		"deploy-storage", "store-zero", "store-nonzero", "store-nonzero", "store-zero"}[st.N%16]
 	switch shape {
+	case "deploy-storage":
+		// a contract with one storage slot: the constructor stores 5 in slot 0, every call stores its argument there
+		toP, gas, value = nil, 300000, new(big.Int)
+		data = evmStorageInit
+		if s.evmStore == nil {
+			a := ethcrypto.CreateAddress(common.BytesToAddress(k.Addr.Bytes()), nonce)
+			s.evmStore = &a
+		}
+	case "store-zero", "store-nonzero":
+		if s.evmStore == nil {
+			return
+		}
+		toP, gas, value = s.evmStore, 100000, new(big.Int)
+		data = make([]byte, 32)
+		if shape == "store-nonzero" {
+			data[31] = byte(1 + st.B%200)
+		}
 	case "no-value":
 		value = new(big.Int)
 	case "wrong-nonce":
